@@ -176,6 +176,9 @@ def iter_len(e, env):
             return iter_len(a.arg, env)
         if isinstance(a, A.Integer):
             return max(0, a.val)
+        if isinstance(a, A.Add) and isinstance(a.first, A.Var) and isinstance(a.second, A.Integer):
+            n = env.get(str(a.first.name))        # `range(k + 3)` at function level: k as passed in
+            return None if n is None else max(0, n + a.second.val)
         return None
     if isinstance(e, A.ListComp) and len(e.iterables) == 1:
         return iter_len(e.iterables[0], env)
@@ -413,6 +416,7 @@ class Check(BaseCheck):
         if strict:
             factor = spec['times'] + 1 if spec['name'] == 'unroll_for' else spec['factor']
         statics = static_lists(f) if strict else {}
+        first_site = [str(c) for c in list_sites(f, spec)[:1]] if strict and factor == 'k' else []
 
         ks = self.kvalues if spec.get('factor') == 'k' else (2,)
         nstates = 0
@@ -420,10 +424,11 @@ class Check(BaseCheck):
         for (xs, ys) in (self.inputs if only_input is None else [only_input[:2]]):
             for k in (ks if only_input is None else (only_input[2],)):
                 nstates += 1
-                # the original does not read k: one run per (xs, ys)
-                okey0 = (tuple(xs), tuple(ys))
+                # most originals do not read k: one run per (xs, ys); those that do, one per k
+                usesk = tags.get('usesk') == 'y'
+                okey0 = (tuple(xs), tuple(ys), k if usesk else 2)
                 if okey0 not in originals:
-                    originals[okey0] = run_confirmed(f, xs, ys, 2)
+                    originals[okey0] = run_confirmed(f, xs, ys, k if usesk else 2)
                 o = originals[okey0]
                 if o[0] == 'timeout':
                     # the grammar makes every original terminate; if one does not, the generator is wrong
@@ -437,11 +442,17 @@ class Check(BaseCheck):
                 if strict:
                     q = k if factor == 'k' else (KF_VALUE if factor == 'KF' else factor)
                     env = dict(statics, xs=len(xs), ys=len(ys))
+                    if tags.get('ctx', 'ambient') == 'ambient':
+                        env['k'] = k          # `range(k + 3)`: exact only where `k + 3` is not rounded
                     lens = [iter_len(c.resolve().iterable, env) for c in selected]
                     if any(n is not None and n % q != 0 for n in lens):
                         r.count('precondition_false')
                         continue
                     unknown_len = any(n is None for n in lens)
+                    if factor == 'k' and 'write-factor' in tags.get('features', '') and \
+                            [str(c) for c in selected] != first_site:
+                        # the body reassigns k: only the outermost first loop snapshots the k passed in
+                        unknown_len = True
                 if timed_out:
                     continue
                 t = run_confirmed(g, xs, ys, k)
